@@ -3570,12 +3570,28 @@ class Graph(_protocols.GraphProtocol, Sequence[Node], _display.PrettyPrintable):
     ):
         self.name = name
 
+        # Check the nodes first so that no argument is modified when one of them is rejected
+        nodes = tuple(nodes)
+        for node in nodes:
+            if node.graph is not None:
+                raise ValueError(
+                    f"The node '{node!r}' belongs to another graph. Please remove it first with Graph.remove()."
+                )
+
         # Private fields that are not to be accessed by any other classes
-        self._inputs = _graph_containers.GraphInputs(self, inputs)
-        self._outputs = _graph_containers.GraphOutputs(self, outputs)
-        self._initializers = _graph_containers.GraphInitializers(
-            self, {initializer.name: initializer for initializer in initializers}
-        )
+        try:
+            self._inputs = _graph_containers.GraphInputs(self, inputs)
+            self._outputs = _graph_containers.GraphOutputs(self, outputs)
+            self._initializers = _graph_containers.GraphInitializers(
+                self, {initializer.name: initializer for initializer in initializers}
+            )
+        except Exception:
+            # Release the values claimed so far so that they are not left owned by
+            # a graph that failed to construct
+            for collection in (getattr(self, "_outputs", None), getattr(self, "_inputs", None)):
+                if collection is not None:
+                    collection.clear()
+            raise
         self._doc_string = doc_string
         self._opset_imports = opset_imports or {}
         self._metadata: _metadata.MetadataStore | None = None
